@@ -357,3 +357,64 @@ def describe(row):
     m, ops, huge, res, lo, hi = row
     return {'mnemonic': m, 'operands': [('>2^30' if h > 0 else '<-2^30') if h else o for o, h in zip(ops, huge)],
             'result': res, 'word': '0x%04x%04x' % (hi, lo)}
+
+
+# ---------------------------------------------------------------------------------------------
+# thorough tier: the complete immediate range of a format through the real encoders, in streamed chunks
+# ---------------------------------------------------------------------------------------------
+def full_range_jobs(mnemonics, regs_a, regs_b, chunk=100000):
+    """Yield (mnemonic, list of operand tuples) covering the COMPLETE legal immediate range of every listed mnemonic for every
+    register pair in regs_a x regs_b (U/J formats: regs_a only)."""
+    for m in mnemonics:
+        sig = ALLSIG[m]
+        imm_slots = [k for k, s_ in enumerate(sig) if isinstance(s_, tuple)]
+        reg_slots = [k for k, s_ in enumerate(sig) if s_ in ('r', 'p')]
+        if len(imm_slots) != 1 or not (1 <= len(reg_slots) <= 2):
+            continue
+        _, lo, hi, sc = sig[imm_slots[0]]
+        buf = []
+        for a in (regs_a if len(reg_slots) == 2 else regs_a[::2]):
+            for b in (regs_b if len(reg_slots) == 2 else [None]):
+                for v in range(lo - (lo % sc), hi + 1, sc):
+                    ops = [0] * len(sig)
+                    ops[reg_slots[0]] = a
+                    if b is not None:
+                        ops[reg_slots[1]] = b
+                    ops[imm_slots[0]] = v
+                    buf.append(ops)
+                    if len(buf) >= chunk:
+                        yield (m, buf)
+                        buf = []
+        if buf:
+            yield (m, buf)
+
+
+def _record_full(args):
+    m, tuples = args
+    return record_direct((m, tuples, 12345))
+
+
+def full_range_validate(run, scratch, mnemonics, regs_a, regs_b, want, procs=16):
+    """Stream: record a wave of chunks in parallel, let TLC judge them, discard, next wave."""
+    total = 0
+    wave = []
+    def flush():
+        nonlocal total, wave
+        if not wave:
+            return
+        with ProcessPoolExecutor(max_workers=procs) as ex:
+            parts = list(ex.map(_record_full, wave))
+        rows = [r for part in parts for r in part]
+        bad = validate_rows(rows, scratch, run, shard=125000)
+        for idx, clause in bad:
+            if want(clause, rows[idx]):
+                r = rows[idx]
+                run.violation(clause, {'mnemonic': r[0], 'via': 'encoder-full-range'}, describe(r))
+        total += len(rows)
+        wave = []
+    for job in full_range_jobs(mnemonics, regs_a, regs_b):
+        wave.append(job)
+        if len(wave) >= procs:
+            flush()
+    flush()
+    return total
